@@ -32,6 +32,7 @@ pub fn aig_to_cells_techmap(aig: &AigModule, original: &GateModule) -> GateModul
         nets: Vec::new(),
         cells: Vec::new(),
         ffs: original.ffs.clone(),
+        ram_blocks: original.ram_blocks.clone(),
     };
     out.nets = original
         .nets
